@@ -57,6 +57,20 @@ class Module:
                 for tgt in stmt.targets:
                     if isinstance(tgt, ast.Name):
                         self.assigns.setdefault(tgt.id, []).append(stmt.value)
+                    elif isinstance(tgt, (ast.Tuple, ast.List)) and all(isinstance(e, ast.Name) for e in tgt.elts):
+                        # `A, B, C = range(3)`: each name is the i-th item of the unpacked value
+                        for i, e in enumerate(tgt.elts):
+                            item = ast.Subscript(value=ast.Call(func=ast.Name(id='tuple', ctx=ast.Load()), args=[stmt.value], keywords=[]),
+                                                 slice=ast.Constant(value=i), ctx=ast.Load())
+                            ast.copy_location(item, stmt)
+                            ast.fix_missing_locations(item)
+                            for sub in ast.walk(item):
+                                if not hasattr(sub, '_module'):
+                                    sub._module = getattr(stmt, '_module', None)
+                                    sub._parent = getattr(sub, '_parent', stmt)
+                                    sub._qual = getattr(stmt, '_qual', '')
+                                    sub._func = getattr(stmt, '_func', '')
+                            self.assigns.setdefault(e.id, []).append(item)
             elif isinstance(stmt, ast.AnnAssign) and stmt.value is not None:
                 if isinstance(stmt.target, ast.Name):
                     self.assigns.setdefault(stmt.target.id, []).append(stmt.value)
